@@ -12,6 +12,15 @@ def deref(v):
     return v
 
 
+class ProcGlobal:
+    """content of a process-global object at entry of the function under analysis (environment)"""
+    def __repr__(self):
+        return '<process-global state>'
+
+
+PROC_GLOBAL = ProcGlobal()
+
+
 def ok(v=UNIT):
     return Agg('Result', 0, [v])
 
@@ -903,6 +912,10 @@ def register(E):
 
     def set_insert(e, a, c):
         m = deref(a[0])
+        if isinstance(m, ProcGlobal):
+            # whether the key is already there depends on what earlier calls in this process left: environment
+            e.env_reads += 1
+            return not e.branch(z3.Bool('env_global_has_%d' % e.env_reads))
         i, found = locate(e, m, a[1])
         if found:
             return False
@@ -1005,6 +1018,19 @@ def register(E):
         return e.fresh_int('env_%d' % e.env_reads, 0, 2 ** 62)
     for k in ('Instant::now', 'SystemTime::now', 'RandomState::new', 'std::process::id', 'std::thread::current', 'random'):
         B[k] = env_value
+
+    # process-global state (a `static` with interior mutability): its content when the function under analysis is
+    # entered is whatever earlier calls in the same process left there — an environment value, not a function of the
+    # request history (C19 "generated twice in one process")
+    def proc_global(e, a, c):
+        e.env_reads += 1
+        return ok(PROC_GLOBAL)
+    for k in ('Mutex::lock', 'RwLock::write', 'RwLock::read'):
+        B[k] = proc_global
+    B['Result::unwrap_or_else'] = lambda e, a, c: a[0].fields[0] if a[0].variant == 0 else e.call_value(a[1], [a[0].fields[0]])
+    for ty in ('AtomicUsize', 'AtomicU64', 'AtomicU32', 'AtomicBool', 'AtomicIsize', 'AtomicI64'):
+        for op in ('fetch_add', 'fetch_sub', 'load', 'swap', 'fetch_or'):
+            B['%s::%s' % (ty, op)] = env_value
 
     def env_var(e, a, c):
         e.env_reads += 1
